@@ -11,6 +11,7 @@ open Atomman Atomman.C15
         applies the insertion to the current system; reply `ok <dump>` (state replaced) or `err:<class>`
         (state kept).  `hasAtol = 0` is `atol=None`: the model applies the default itself.
   `sites  x y z  scale  hasAtol atol`   reply: the indices matched by the site search
+  `dflt v`  the default tolerance in the current working units (`dflt` alone: back to angstrom = 1)
 -/
 
 /-- `uc.set_in_units(0.01, 'angstrom')` in atomman's working units (angstrom = 1): the IEEE double
@@ -91,49 +92,59 @@ def pOp : P OpArgs := do
   let extra ← pRep nkw (do let k ← tok; let w ← pNat; let v ← pRep w pRat; pure (k, v))
   pure { name, pos, ptd, db, scale, atol, kw := { atype := t, oldId := o, extra := extra } }
 
-def applyOp (s : Sys Rat) (a : OpArgs) : Option (Except Err (Sys Rat)) :=
+def applyOp (dflt : Rat) (s : Sys Rat) (a : OpArgs) : Option (Except Err (Sys Rat)) :=
   if a.name = "vacancy" then
     -- vacancy() has no db_vect / kwargs parameters
-    if a.db.isSome || !a.kw.isEmpty then none else some (vacancyC defaultAtol s a.pos a.ptd a.scale a.atol)
+    if a.db.isSome || !a.kw.isEmpty then none else some (vacancyC dflt s a.pos a.ptd a.scale a.atol)
   else if a.name = "interstitial" then
     match a.pos, a.ptd, a.db with
-    | some p, none, none => some (interstitialC defaultAtol s p a.scale a.atol a.kw)
+    | some p, none, none => some (interstitialC dflt s p a.scale a.atol a.kw)
     | _, _, _ => none
   else if a.name = "substitutional" then
-    if a.db.isSome then none else some (substitutionalC defaultAtol s a.pos a.ptd a.scale a.atol a.kw)
+    if a.db.isSome then none else some (substitutionalC dflt s a.pos a.ptd a.scale a.atol a.kw)
   else if a.name = "dumbbell" then
     match a.db with
-    | some d => some (dumbbellC defaultAtol s a.pos a.ptd d a.scale a.atol a.kw)
+    | some d => some (dumbbellC dflt s a.pos a.ptd d a.scale a.atol a.kw)
     | none => none
   else if a.name.startsWith "point:" then
-    some (pointC defaultAtol s (a.name.drop 6).toString a.pos a.ptd a.db a.scale a.atol a.kw)
+    some (pointC dflt s (a.name.drop 6).toString a.pos a.ptd a.db a.scale a.atol a.kw)
   else none
 
-def step (st : Option (Sys Rat)) (toks : List String) : Option (Sys Rat) × String :=
+/-- driver state: the current system and the default tolerance in working units. -/
+abbrev St := Option (Sys Rat) × Rat
+
+def step (state : St) (toks : List String) : St × String :=
+  let (st, dflt) := state
   match toks with
   | "sys" :: rest =>
     match pSys.run rest with
-    | some (s, []) => (some s, "ok " ++ dumpSys s)
-    | _ => (st, err "format")
+    | some (s, []) => ((some s, dflt), "ok " ++ dumpSys s)
+    | _ => (state, err "format")
+  | ["dflt", v] =>
+    -- the working length unit was changed: `uc.set_in_units(0.01, 'angstrom')` is now `v`
+    match parseRat? v with
+    | some r => ((st, r), "ok " ++ showRat r)
+    | none => (state, err "format")
+  | ["dflt"] => ((st, defaultAtol), "ok " ++ showRat defaultAtol)
   | "op" :: rest =>
     match st with
-    | none => (st, err "op")
+    | none => (state, err "op")
     | some s =>
       match pOp.run rest with
       | some (a, []) =>
-        match applyOp s a with
-        | none => (st, err "format")
-        | some (.error e) => (st, e.wire)
-        | some (.ok s') => (some s', "ok " ++ dumpSys s')
-      | _ => (st, err "format")
+        match applyOp dflt s a with
+        | none => (state, err "format")
+        | some (.error e) => (state, e.wire)
+        | some (.ok s') => ((some s', dflt), "ok " ++ dumpSys s')
+      | _ => (state, err "format")
   | "sites" :: rest =>
     match st with
-    | none => (st, err "op")
+    | none => (state, err "op")
     | some s =>
       match (do let p ← pV3; let sc ← pBool; let atol ← pOpt pRat; pure (p, sc, atol) : P _).run rest with
       | some ((p, sc, atol), []) =>
-        (st, "sites " ++ " ".intercalate ((siteMatches s (toCart s sc p) (effAtol defaultAtol atol)).map toString))
-      | _ => (st, err "format")
-  | _ => (st, err "op")
+        (state, "sites " ++ " ".intercalate ((siteMatches s (toCart s sc p) (effAtol dflt atol)).map toString))
+      | _ => (state, err "format")
+  | _ => (state, err "op")
 
-def main : IO Unit := runDriverS step none
+def main : IO Unit := runDriverS step (none, defaultAtol)
